@@ -51,11 +51,13 @@ fn replay_json(prop: &dyn Property, seed: u64, tape: &[u32], desc: &str, f: &Fai
 	})
 }
 
-fn write_replay(prop: &dyn Property, seed: u64, tape: &[u32], desc: &str, f: &Failure) -> PathBuf {
+fn write_replay(prop: &dyn Property, seed: u64, tier: Tier, tape: &[u32], desc: &str, f: &Failure) -> PathBuf {
 	let dir = verif_root().join("replays");
 	let _ = std::fs::create_dir_all(&dir);
 	let path = dir.join(format!("{}-{:016x}.json", prop.id(), tape_hash(tape)));
-	let v = replay_json(prop, seed, tape, desc, f);
+	let mut v = replay_json(prop, seed, tape, desc, f);
+	// (some generators size their cases by tier: the tape decodes as recorded only under the same tier)
+	v["tier"] = json!(tier.name());
 	let _ = std::fs::write(&path, serde_json::to_string_pretty(&v).unwrap());
 	path
 }
@@ -186,7 +188,7 @@ impl<'a> WorkerState<'a> {
 			(tape, f)
 		};
 		let desc = describe(prop, &tape, self.tier, false);
-		let path = write_replay(prop, self.seed, &tape, &desc, &f);
+		let path = write_replay(prop, self.seed, self.tier, &tape, &desc, &f);
 		println!("VIOLATION property={} replay={}", prop.id(), path.display());
 		println!("NOTE {} oracle={} sig={} :: {}", prop.id(), f.oracle, f.sig, f.detail.replace('\n', " | "));
 		let _ = std::io::stdout().flush();
@@ -306,13 +308,14 @@ pub fn worker(prop: &dyn Property, tier: Tier, seed: u64, shard: usize, nshards:
 			// one it was recorded for (the recorded Debug text is kept in the file)
 			let recorded = std::fs::read_to_string(&path).ok().and_then(|t| serde_json::from_str::<Value>(&t).ok()).and_then(|v| v["case"].as_str().map(|s| s.to_string())).unwrap_or_default();
 			if !recorded.is_empty() && !recorded.starts_with("(case did not return") {
-				let now = describe(prop, &tape, tier, true);
+				let now = describe(prop, &tape, Tier::Quick, true);
 				if !now.is_empty() && now != recorded {
 					println!("NOTE {} witness {} no longer decodes to its recorded case (the generator changed since); it is replayed as it decodes now", prop.id(), k.witness);
 					*st.res.counters.entry("stale-witnesses".to_string()).or_insert(0) += 1;
 				}
 			}
-			let mut ctx = Ctx::new(tier);
+			// (witnesses were recorded under the quick tier and are decoded under it in every tier)
+			let mut ctx = Ctx::new(Tier::Quick);
 			ctx.include_known = true;
 			let r = run_case(prop, &tape, &mut ctx);
 			if k.fixed {
@@ -603,6 +606,11 @@ pub fn replay(prop: &dyn Property, path: &Path, tier: Tier) -> i32 {
 		}
 	};
 	let include_known = path.components().any(|c| c.as_os_str() == "known");
+	let tier = match std::fs::read_to_string(path).ok().and_then(|t| serde_json::from_str::<Value>(&t).ok()).and_then(|v| v["tier"].as_str().map(|s| s.to_string())).as_deref() {
+		Some("thorough") => Tier::Thorough,
+		Some("quick") => Tier::Quick,
+		_ => tier,
+	};
 	let mut ctx = Ctx::new(tier);
 	ctx.include_known = include_known;
 	ctx.want_desc = true;
